@@ -121,7 +121,7 @@ def want_crossing(tx, pop):
 
 
 def r12(chk):
-    fn = chk.fn(NN, "NonnegMean.sample_size")
+    fn = chk.fn(NN, "NonnegMean.sample_size", single_exit=True)
     where = f"{NN}:NonnegMean.sample_size"
     top, det, sim = branches(fn)
     R = roles_sample_size(fn, det, sim)
@@ -189,7 +189,7 @@ def _subN(v):
 
 
 def r3(chk):
-    fn = chk.fn(NN, "NonnegMean.sample_size")
+    fn = chk.fn(NN, "NonnegMean.sample_size", single_exit=True)
     where = f"{NN}:NonnegMean.sample_size"
     top, det, sim = branches(fn)
     loops = [l for l in sim if isinstance(l, ast.For)]
@@ -368,15 +368,25 @@ def r4(chk):
         f2 = loc.get(i2, "")
         ok = norm(v1) == SMALLN and norm(v2) == "0" and "int(1/rate_1)" in f1 and "int(1/rate_2)" in f2 and f1.startswith("np.arange(0,self.test.N") \
             and f2.startswith("np.arange(0,self.test.N") and f1.endswith("ifrate_1else[]") and f2.endswith("ifrate_2else[]")
-        xinit = loc.get(XN, "")
-        ok = ok and xinit in (f"{BIGN}*np.ones(self.test.N)", f"np.ones(self.test.N)*{BIGN}")
+        xinits = [norm(d.value) for d in env.get(XN, [])]
+        ok = ok and any(xi in (f"{BIGN}*np.ones(self.test.N)", f"np.ones(self.test.N)*{BIGN}") for xi in xinits)
     chk.ob("C16.R4", where, "comparison-data-at-assumed-rates", ok,
            "comparison: all values error-free, then the one-vote value at every int(1/rate_1)-th position, then 0 at every int(1/rate_2)-th "
            "(two-vote errors overwrite one-vote errors)", node=fn, strength="N")
     # the estimate itself: the assertion's own test, its contest's risk limit
     tcalls = [c for c in ast.walk(fn) if isinstance(c, ast.Call) and norm(c.func) == "self.test.sample_size"]
-    ok = len(tcalls) == 2 and all({k.arg: norm(k.value) for k in c.keywords}.get("alpha") == "self.contest.risk_limit" for c in tcalls) \
-        and sorted(norm(c.args[0]) for c in tcalls) == sorted(["data", XN])
+    alpha_ok = bool(tcalls) and all({k.arg: norm(k.value) for k in c.keywords}.get("alpha") == "self.contest.risk_limit" for c in tcalls)
+    arg0 = sorted(norm(c.args[0]) for c in tcalls if c.args)
+    if len(tcalls) == 2:
+        data_ok = arg0 == sorted(["data", XN])
+    else:
+        # one call after the branch: the population handed over is `data` on the branch where data were given (x = data) and
+        # the assumed population otherwise
+        xdefs = env.get(XN, [])
+        given = [d for d in xdefs if norm(d.value) == "data"]
+        data_ok = len(tcalls) == 1 and arg0 == [XN] and len(given) == 1 and any(
+            in_body and aud.cond_equiv(Tx().cond(a_.test), spec.cond_term("data is not None"))[0] for a_, in_body in _guards(given[0], fn))
+    ok = alpha_ok and data_ok
     chk.ob("C16.R4", where, "own-test-own-limit", ok,
            "the estimate is the assertion's own test's sample_size on the data (given or assumed) at the contest's own risk limit", node=fn, strength="N")
 
@@ -418,7 +428,9 @@ def r5(chk):
             a = norm(l.target.elts[1]) if isinstance(l.target, ast.Tuple) else norm(l.target)
             bad = []
             n_upd_paths = 0
-            for p in paths(l.body):
+            from ..canon import structure_continues
+            sbody = structure_continues(l.body)  # `if asn.proved: continue` is the guard-clause spelling of `if not asn.proved:`
+            for p in paths(sbody if sbody is not None else l.body):
                 pol = None
                 for e in p.events:
                     if e[0] == "test" and norm(e[1]) in (f"not{a}.proved", f"{a}.proved"):
@@ -437,7 +449,7 @@ def r5(chk):
                     bad.append("update on a path for a proved assertion")
             ok = not bad and n_upd_paths >= 1 and norm(init[0].value) == "0" and init[0].lineno < l.lineno and fin[0].lineno > l.lineno \
                 and norm(fin[0].value) == ACC and whole_collection(l.iter) and norm(l.iter) == f"{con}.assertions.items()" \
-                and not [x for x in walk_local(l) if isinstance(x, (ast.Break, ast.Continue))]
+                and sbody is not None and not [x for x in walk_local(l) if isinstance(x, ast.Break)]
             detail = dict(problems=bad, updating_paths=n_upd_paths)
     chk.ob("C16.R5", where, "audit-estimate-is-max-over-unproved", ok,
            "each contest's new sample size is the maximum, from 0, over all its not-yet-confirmed assertions of the assertion's estimate "
@@ -510,7 +522,7 @@ def r6(chk):
         npar = [a.arg for a in fn.args.args]
         Nn = "N" if "N" in npar else None
         i1, i2 = X(t1.slice), X(t2.slice)
-        want = lambda r: f"np.arange(0,{Nn},step=int(1/args.{r}),dtype=int)ifargs.{r}else[]"
+        want = lambda r: f"np.arange(0,{Nn},int(1/args.{r}),dtype=int)ifargs.{r}else[]"  # (keywords of np.arange are normalised to positions)
         detail = dict(first=f"{i1} := {norm(v1)}", second=f"{i2} := {norm(v2)}")
         okp = norm(v1) == SMALLN and norm(v2) == "0" and i1 == want("erate1") and i2 == want("erate2")
     chk.ob("C16.R6", where, "sibling-placement", okp,
@@ -672,3 +684,15 @@ def r7(chk):
     chk.ob("C16.R7", where, "first-position-and-empty-request", ok_first,
            "position 0 takes the first requested kind (small, then med, then big) and a request for nothing returns the empty array before "
            "position 0 is written", node=first[0] if first else fn)
+
+
+def _guards(stmt, fn):
+    """(If node, in_body) for every `if` that controls the statement"""
+    out = []
+    n = stmt
+    p = parent(n)
+    while p is not None and p is not fn:
+        if isinstance(p, ast.If):
+            out.append((p, n in p.body))
+        n, p = p, parent(p)
+    return out
